@@ -373,7 +373,7 @@ func init() {
 		domFam := mapDomFam(mt)
 		domArr := u.heapGet(st, domFam, ArrSort(SInt, ArrSort(ks, SBool)))
 		u.heapSet(st, domFam, Store(domArr, r, Select(domArr, m.T)))
-		for _, cp := range comps(vt) {
+		for _, cp := range mapComps(vt) {
 			fam := mapValFam(mt) + cp[0]
 			arr := u.heapGet(st, fam, ArrSort(SInt, ArrSort(ks, cp[1])))
 			u.heapSet(st, fam, Store(arr, r, Select(arr, m.T)))
@@ -402,7 +402,7 @@ func init() {
 		newDom := u.ctx.Fresh("dom", ArrSort(ks, SBool))
 		u.assume(st, Term{fmt.Sprintf("(forall ((k %s)) (! (= (select %s k) (or (select %s k) (select %s k))) :pattern ((select %s k))))", ks, newDom.S, oldDom.S, srcDom.S, newDom.S), SBool}, "maps.Copy domain")
 		u.heapSet(st, domFam, Ite(Eq(d.T, TNil), domArr, Store(domArr, d.T, newDom)))
-		for _, cp := range comps(vt) {
+		for _, cp := range mapComps(vt) {
 			dfam := mapValFam(dt) + cp[0]
 			sfam := mapValFam(stp) + cp[0]
 			darr := u.heapGet(st, dfam, ArrSort(SInt, ArrSort(ks, cp[1])))
